@@ -8,8 +8,9 @@
    get_line_prefix(l, k); [st] = the scroll state left by the previous render
    (vertical_scroll, vertical_scroll_2, horizontal_scroll).
    cr2 = rowcol_to_yx, cscr = the screen cells written by _copy_body.
-   [fixed] selects the repaired slice of fixes/C11-wrap-cursor-row.patch; the
-   code as it is in /repo is fixed = false (that is what run_C11 executes). *)
+   scroll_wrap / render / run_C11 are the code as it is in /repo (with commit
+   f4b07a8, slice_stop = cursor column + 1); the *_pinned variants are the pinned
+   snapshot and appear only in C11_wrap_narrow_pinned_refuted. *)
 From Coq Require Import ZArith List Bool.
 From PTK Require Import Lib.Sx Lib.Py Model.C11_Scroll Model.C11_CopyBody
      Proofs.C11_ScrollFacts Proofs.C11_CopyFacts Proofs.C11_LiveFacts Proofs.C11_WrapFacts
@@ -73,14 +74,10 @@ Print Assumptions C11_nowrap.
    _scroll_when_linewrapping + _copy_body the cursor has a screen position, at
    the arithmetic position (rows of the lines above - vertical_scroll_2 +
    col / w', p + col mod w') with w' = width - p, inside the window, and the
-   cell there shows the character under the cursor - PROVIDED one of: the
-   repaired slice is used; the cursor line fits (height <= window height - top
-   offset); the cursor is not on the first cell of a wrapped row; that row index
-   is below the window height.  Without the proviso the statement is false on
-   the code as it is: C11_wrap_narrow_refuted.  (_partial: the proviso; for
-   fixed = true there is none and this is the full statement.) *)
-Theorem C11_wrap_narrow_partial :
-  forall sw dw disp haspfx pfx width height xpos ypos p top bottom lines cyr cxc st fixed allow,
+   cell there shows the character under the cursor.  Full strength: no proviso
+   (the one needed before commit f4b07a8 is gone). *)
+Theorem C11_wrap_narrow :
+  forall sw dw disp haspfx pfx width height xpos ypos p top bottom lines cyr cxc st allow,
   (forall c, sw c = 1) -> (forall c, dw c = 1) ->
   (haspfx = true -> forall l k, len (pfx l k) = p) -> (haspfx = false -> p = 0) ->
   0 <= p -> 1 <= width - p -> 1 <= height -> 0 <= top -> 0 <= bottom -> 0 <= vs st ->
@@ -88,17 +85,16 @@ Theorem C11_wrap_narrow_partial :
   0 <= cyr < len lines -> 0 <= cxc < len (nth (Z.to_nat cyr) lines []) ->
   let Hfn l := height_for_line sw haspfx pfx (nth (Z.to_nat l) lines []) l width None in
   let tbhn s := height_for_line sw haspfx pfx (nth (Z.to_nat cyr) lines []) cyr width (Some s) in
-  let s' := scroll_wrap fixed allow Hfn tbhn width height top bottom cyr cxc (len lines) st in
+  let s' := scroll_wrap allow Hfn tbhn width height top bottom cyr cxc (len lines) st in
   let o := copy_body sw dw disp true haspfx pfx width height xpos ypos lines s' in
-  (fixed = true \/ Hfn cyr <= height - top \/ cxc mod (width - p) <> 0 \/ cxc / (width - p) < height) ->
   let y := sumH Hfn (vs s') (Z.to_nat cyr) - vs2 s' + cxc / (width - p) in
   let x := p + cxc mod (width - p) in
   0 <= y < height /\ 0 <= x < width /\
   alist_get (cr2 o) (cyr, cxc) = Some (y + ypos, x + xpos) /\
   exists c, nth_error (nth (Z.to_nat cyr) lines []) (Z.to_nat cxc) = Some c /\
             cstr (scr_get (cscr o) (y + ypos) (x + xpos)) = disp c.
-Proof. exact wrap_narrow_cursor. Qed.
-Print Assumptions C11_wrap_narrow_partial.
+Proof. exact wrap_narrow_cursor_full. Qed.
+Print Assumptions C11_wrap_narrow.
 
 (* The rows shown are consecutive document lines in order: in
    visible_line_to_row_col two successive screen rows show the same document
@@ -158,31 +154,31 @@ Theorem C11_sequence : forall steps st, Forall step_ok steps -> 0 <= vs st ->
 Proof. exact steps_inv. Qed.
 Print Assumptions C11_sequence.
 
-(* The unrestricted statement is FALSE on the code as it is, already for plain
-   ASCII (finding C11-F1): 'abcde' in a 5x1 wrapping window with the cursor at
-   the end.  With the repaired slice the same render is fine. *)
-Theorem C11_wrap_narrow_refuted :
+(* On the pinned snapshot (before commit f4b07a8) the statement was false already
+   for plain ASCII (finding C11-F1, now fixed): 'abcde' in a 5x1 wrapping
+   window with the cursor at the end; the same render is fine on the code as it
+   is now. *)
+Theorem C11_wrap_narrow_pinned_refuted :
   exists g W Hh text cursor,
     g_wrap g = true /\ all_narrow g text = true /\ 0 <= cursor <= len text /\ 1 <= W /\ 1 <= Hh /\
-    render_cursor_ok false g W Hh 0 0 text cursor (mkss 0 0 0) = false /\
-    render_cursor_ok true g W Hh 0 0 text cursor (mkss 0 0 0) = true.
+    render_cursor_ok_pinned g W Hh 0 0 text cursor (mkss 0 0 0) = false /\
+    render_cursor_ok g W Hh 0 0 text cursor (mkss 0 0 0) = true.
 Proof.
   exists (g_plain true []), 5, 1, w1_text, 5.
-  destruct wrap_narrow_refuted_w as (A & B & C).
+  destruct wrap_narrow_pinned_refuted_w as (A & B & C).
   repeat split; try assumption; try reflexivity; discriminate.
 Qed.
-Print Assumptions C11_wrap_narrow_refuted.
+Print Assumptions C11_wrap_narrow_pinned_refuted.
 
-(* Control characters (source width 0, drawn as ^A: 2 cells), finding F13:
-   false with wrapping and without, and the row-slice repair does not help. *)
+(* Control characters (source width 0, drawn as ^A: 2 cells), finding F13 (known):
+   false with wrapping and without. *)
 Theorem C11_wrap_control_refuted :
   exists g W Hh text cursor,
     g_wrap g = true /\ has_control g text = true /\ 0 <= cursor <= len text /\
-    render_cursor_ok false g W Hh 0 0 text cursor (mkss 0 0 0) = false /\
-    render_cursor_ok true g W Hh 0 0 text cursor (mkss 0 0 0) = false.
+    render_cursor_ok g W Hh 0 0 text cursor (mkss 0 0 0) = false.
 Proof.
   exists (g_plain true w13_tab), 5, 2, w13_text, 9.
-  destruct wrap_control_refuted_w as (A & B & C).
+  destruct wrap_control_refuted_w as (A & B).
   repeat split; try assumption; try reflexivity; discriminate.
 Qed.
 Print Assumptions C11_wrap_control_refuted.
@@ -190,7 +186,7 @@ Print Assumptions C11_wrap_control_refuted.
 Theorem C11_nowrap_control_refuted :
   exists g W Hh text cursor,
     g_wrap g = false /\ has_control g text = true /\ 0 <= cursor <= len text /\
-    render_cursor_ok false g W Hh 0 0 text cursor (mkss 0 0 0) = false.
+    render_cursor_ok g W Hh 0 0 text cursor (mkss 0 0 0) = false.
 Proof.
   exists (g_plain false w13_tab), 5, 2, [1; 1; 1; 1], 4.
   pose proof nowrap_control_refuted_w as A.
@@ -198,23 +194,24 @@ Proof.
 Qed.
 Print Assumptions C11_nowrap_control_refuted.
 
-(* Wide characters, finding F14 (the sub-domain the property sets apart). *)
+(* Wide characters, finding F14 (known; the sub-domain the property sets apart). *)
 Theorem C11_wrap_wide_refuted :
   exists g W Hh text cursor,
     g_wrap g = true /\ has_wide g text = true /\ has_control g text = false /\ 0 <= cursor <= len text /\
-    render_cursor_ok false g W Hh 0 0 text cursor (mkss 0 0 0) = false /\
-    render_cursor_ok true g W Hh 0 0 text cursor (mkss 0 0 0) = false.
+    render_cursor_ok g W Hh 0 0 text cursor (mkss 0 0 0) = false.
 Proof.
   exists (g_plain true w14_tab), 5, 2, w14_text, 11.
-  destruct wrap_wide_refuted_w as (A & B & C & D).
+  destruct wrap_wide_refuted_w as (A & B & C).
   repeat split; try assumption; try reflexivity; discriminate.
 Qed.
 Print Assumptions C11_wrap_wide_refuted.
 
-(* Non-vacuity: narrow renders on which the model's verdict is "cursor visible". *)
+(* Non-vacuity: narrow renders on which the verdict is "cursor visible"
+   (the first one is the former F1 witness). *)
 Example C11_hypotheses_satisfiable :
   all_narrow (g_plain true []) w1_text = true /\
-  render_cursor_ok false (g_plain true []) 5 2 0 0 w1_text 5 (mkss 0 0 0) = true /\
-  render_cursor_ok false (g_plain false []) 3 1 0 0 w1_text 5 (mkss 0 0 0) = true.
+  render_cursor_ok (g_plain true []) 5 1 0 0 w1_text 5 (mkss 0 0 0) = true /\
+  render_cursor_ok (g_plain true []) 5 2 0 0 w1_text 5 (mkss 0 0 0) = true /\
+  render_cursor_ok (g_plain false []) 3 1 0 0 w1_text 5 (mkss 0 0 0) = true.
 Proof. exact narrow_ok_example. Qed.
 Print Assumptions C11_hypotheses_satisfiable.
